@@ -233,6 +233,21 @@ func (r *Report) Add(d Disagreement) {
 	r.Count(key)
 }
 
+// Merge adds another suite's results to this report.
+func (r *Report) Merge(o *Report) {
+	r.Evaluations += o.Evaluations
+	r.Distinct += o.Distinct
+	r.Rule += " || " + o.Rule
+	r.Samples = append(r.Samples, o.Samples...)
+	for k, v := range o.Distribution {
+		if r.Distribution == nil {
+			r.Distribution = map[string]int{}
+		}
+		r.Distribution[k] += v
+	}
+	r.Disagreements = append(r.Disagreements, o.Disagreements...)
+}
+
 func (r *Report) Write(path string) error {
 	b, err := json.MarshalIndent(r, "", " ")
 	if err != nil {
